@@ -32,14 +32,14 @@ type Obligation struct {
 
 // Rule is one named structural necessary condition.
 type Rule struct {
-	ID      string
-	Title   string   // the rule applied, one sentence
-	Covers  string   // which clause of the property it is a necessary condition for
-	Configs []string // build configurations it runs on in the quick tier (default: "default")
-	Deep    []string // additional configurations in the thorough tier
-	DeepOnly bool    // only runs in the thorough tier
-	Min     int      // vacuity floor: minimum number of obligations confirmed by hand
-	Run     func(rc *RC)
+	ID       string
+	Title    string   // the rule applied, one sentence
+	Covers   string   // which clause of the property it is a necessary condition for
+	Configs  []string // build configurations it runs on in the quick tier (default: "default")
+	Deep     []string // additional configurations in the thorough tier
+	DeepOnly bool     // only runs in the thorough tier
+	Min      int      // vacuity floor: minimum number of obligations confirmed by hand
+	Run      func(rc *RC)
 }
 
 // Property binds rules to a property id.
@@ -127,7 +127,7 @@ type KnownFinding struct {
 	Property  []string `json:"properties"`
 	Rule      string   `json:"rule"`
 	AlsoRules []string `json:"also_rules,omitempty"` // other rule ids that report the same construct under another property
-	Keys      []string `json:"keys"` // exact obligation keys (config-independent)
+	Keys      []string `json:"keys"`                 // exact obligation keys (config-independent)
 	WhatFails string   `json:"what_fails"`
 	Repro     string   `json:"repro"`
 	WhyNotFix string   `json:"why_not_fixed,omitempty"`
@@ -168,17 +168,17 @@ func LoadKnown() (*KnownFile, error) {
 // ---- running ----
 
 type RuleReport struct {
-	ID          string `json:"id"`
-	Title       string `json:"rule"`
-	Covers      string `json:"necessary_condition_for"`
+	ID          string   `json:"id"`
+	Title       string   `json:"rule"`
+	Covers      string   `json:"necessary_condition_for"`
 	Configs     []string `json:"configs"`
-	Instances   int    `json:"instances"`
-	MinExpected int    `json:"min_expected"`
-	Discharged  int    `json:"discharged"`
-	Findings    int    `json:"known_findings"`
-	Violations  int    `json:"violations"`
-	Undecided   int    `json:"undecided"`
-	Notes       int    `json:"observations"`
+	Instances   int      `json:"instances"`
+	MinExpected int      `json:"min_expected"`
+	Discharged  int      `json:"discharged"`
+	Findings    int      `json:"known_findings"`
+	Violations  int      `json:"violations"`
+	Undecided   int      `json:"undecided"`
+	Notes       int      `json:"observations"`
 }
 
 type Result struct {
